@@ -111,7 +111,7 @@ Compare(S, res, in, ob, hist2) ==
 \* ------------------------------------------------------------------ behaviour
 Init == /\ l = 1 /\ cur = InitState /\ hist = EmptyFn /\ txh = {} /\ nIss = 0
 
-Report(line, iss) == \A x \in iss : PrintT(<<"ISSUE", line, x[1], x[2]>>)
+Report(line, iss) == \A x \in iss : PrintT("ISSUE " \o ToJson(<<line, x[1], ToString(x[2])>>))
 
 StepStart ==
   /\ Tr[l].ev = "Start"
